@@ -210,6 +210,9 @@ def gen_workload(tape, tier):
 
 def _bin_name(rng, b):
     r = rng.random()
+    if r < 0.06:
+        # legal but unusual characters inside a name
+        return ["exon#%d" % b, "G;x|y:z", "a b", "#lead%d" % b, "x%%y", "q\"uote", "R=1&2"][int(rng.integers(0, 7))]
     if r < 0.5:
         return f"G{int(rng.integers(0, 8))}"
     if r < 0.65:
